@@ -9,7 +9,7 @@ COMMON_ASSUMPTIONS = [
 
 PROPERTIES: dict[str, dict] = {
     "C01": {
-        "rules": ["R-BLISS", "R-FLOW-CANON", "R-FLOW-SERIAL", "R-KEYS", "R-BIJ", "R-OWNFIRST", "R-HASH"],
+        "rules": ["R-BLISS", "R-FLOW-CANON", "R-FLOW-SERIAL", "R-KEYS", "R-BIJ", "R-OWNFIRST", "R-HASH", "R-INDEXSPACE", "R-GRAPHBUILD", "R-REBUILD"],
         "thorough_rules": ["R-LIBSRC"],
         "technique": "information-flow (order/label/hash taint) abstract interpretation + index-space typing of the bliss call site",
         "explanation": "Non-interference proof over all paths of canonicalize_molecule and serialize_molecule: colours handed to bliss carry no "
@@ -20,7 +20,7 @@ PROPERTIES: dict[str, dict] = {
         "assumptions": COMMON_ASSUMPTIONS + ["bliss returns a canonical form for colour-isomorphic graphs", "igraph index convention table per version (spec.py)"],
     },
     "C02": {
-        "rules": ["R-CODEC", "R-KEYS", "R-ELEMTABLE", "R-LEX", "R-ATTRREAD"],
+        "rules": ["R-CODEC", "R-KEYS", "R-ELEMTABLE", "R-LEX", "R-ATTRREAD", "R-REBUILD"],
         "technique": "structural losslessness rules on serializer/parser + automata check of unique tokenisation",
         "explanation": "Necessary conditions of injectivity, each decided over all code paths: every edge / labelled atom / atom is emitted "
                        "(no filter), indices are label+1 and decoded as index-1, numbering is by atomic number first so the formula identifies "
@@ -30,7 +30,7 @@ PROPERTIES: dict[str, dict] = {
         "assumptions": COMMON_ASSUMPTIONS,
     },
     "C03": {
-        "rules": ["R-CODEC", "R-KEYS", "R-ELEMTABLE", "R-GRAM3", "R-SHAPE", "R-ZERO", "R-BLISS", "R-FLOW-CANON", "R-FLOW-SERIAL", "R-BIJ"],
+        "rules": ["R-CODEC", "R-KEYS", "R-ELEMTABLE", "R-GRAM3", "R-SHAPE", "R-ZERO", "R-BLISS", "R-FLOW-CANON", "R-FLOW-SERIAL", "R-BIJ", "R-REBUILD"],
         "thorough_rules": ["R-LIBSRC"],
         "technique": "codec-agreement rules + language inclusion (emitted ⊆ grammar) by automata + the C01 flow proof for the fixed-point half",
         "explanation": "Serializer/parser agreement (offsets, key tables, numbering by atomic number, stable sort), emitted strings are sentences of the "
@@ -40,7 +40,7 @@ PROPERTIES: dict[str, dict] = {
         "assumptions": COMMON_ASSUMPTIONS,
     },
     "C04": {
-        "rules": ["R-BLISS", "R-BIJ", "R-FLOW-CANON", "R-COPY", "R-KEYS", "R-OWNFIRST"],
+        "rules": ["R-BLISS", "R-BIJ", "R-FLOW-CANON", "R-COPY", "R-KEYS", "R-OWNFIRST", "R-GRAPHBUILD", "R-INDEXSPACE"],
         "thorough_rules": ["R-LIBSRC"],
         "technique": "index-space typing of the bliss call site + taint analysis of the colour vector",
         "explanation": "The property's own mechanism: label-independent colours (taint proof), bliss called with them, its result used in the "
@@ -49,7 +49,7 @@ PROPERTIES: dict[str, dict] = {
         "assumptions": COMMON_ASSUMPTIONS + ["igraph index convention table per version (spec.py)"],
     },
     "C05": {
-        "rules": ["R-SHAPE", "R-LAYOUT", "R-ZERO", "R-FLOW-SERIAL", "R-ELEMTABLE", "R-GRAM3", "R-CODEC"],
+        "rules": ["R-SHAPE", "R-LAYOUT", "R-ZERO", "R-FLOW-SERIAL", "R-ELEMTABLE", "R-GRAM3", "R-CODEC", "R-REBUILD"],
         "technique": "string-shape abstract interpretation of the serializer + regular-language inclusion in the EBNF automaton",
         "explanation": "The serializer's writer functions are evaluated symbolically (all paths) into a regular expression over grammar tokens and "
                        "typed integer holes; inclusion in L_EBNF(tucan) is decided by a product walk. Value holes are positive by R-ZERO; ascending / "
@@ -58,7 +58,7 @@ PROPERTIES: dict[str, dict] = {
         "assumptions": COMMON_ASSUMPTIONS + ["attribute values of graphs reaching the serializer come from the readers or the parser"],
     },
     "C06": {
-        "rules": ["R-ATTRREAD", "R-KEYS", "R-PROV", "R-KWEXACT", "R-ZERO", "R-SUPERSEDE"],
+        "rules": ["R-ATTRREAD", "R-KEYS", "R-PROV", "R-KWEXACT", "R-ZERO", "R-SUPERSEDE", "R-INDEXSPACE", "R-GRAPHBUILD"],
         "technique": "read-set analysis of the pipeline + provenance taint in the readers + partial evaluation of keyword recognizers",
         "explanation": "The pipeline reads only invariant code / partition / Z / symbol / mass / rad and no edge data; the invariant code is exactly "
                        "(Z, mass, rad); in both readers those attributes receive values only from their own fields (provenance labels); an unrelated "
@@ -67,7 +67,7 @@ PROPERTIES: dict[str, dict] = {
         "assumptions": COMMON_ASSUMPTIONS + ["CTfile V3000 atom keyword list (spec.py)"],
     },
     "C07": {
-        "rules": ["R-KWEXACT", "R-ZERO", "R-ORDERING", "R-SIBKEYS", "R-PROV", "R-ALIAS", "R-WRAP"],
+        "rules": ["R-KWEXACT", "R-ZERO", "R-ORDERING", "R-SIBKEYS", "R-PROV", "R-ALIAS", "R-WRAP", "R-INDEXSPACE", "R-GRAPHBUILD"],
         "technique": "partial evaluation of token predicates over the spec's keyword set + heap-based taint analysis of the reader + CFG ordering rules",
         "explanation": "Keyword recognizers accept exactly their keyword; zero-valued explicit defaults never reach atom records; splicing precedes "
                        "tokenising and bond endpoints are validated before return; D/T pass through the shared helper; per-bond dictionaries are not shared.",
@@ -75,7 +75,7 @@ PROPERTIES: dict[str, dict] = {
         "assumptions": COMMON_ASSUMPTIONS + ["CTfile V3000 atom keyword list (spec.py)"],
     },
     "C08": {
-        "rules": ["R-COLS", "R-CHGTABLE", "R-SIBKEYS", "R-KILL", "R-SUPERSEDE", "R-ZERO", "R-PROV"],
+        "rules": ["R-COLS", "R-CHGTABLE", "R-SIBKEYS", "R-KILL", "R-SUPERSEDE", "R-ZERO", "R-PROV", "R-INDEXSPACE", "R-GRAPHBUILD"],
         "technique": "column-span checking via provenance labels and partial evaluation + kill/def analysis of the property block",
         "explanation": "Every column slice equals its CTfile field (atom, bond, counts and the affine property-entry layout for entries 1..8), the "
                        "charge-code table is the format's, both readers write the same keys, symbol-derived masses are never cleared, CHG/RAD lines "
@@ -92,7 +92,7 @@ PROPERTIES: dict[str, dict] = {
         "assumptions": COMMON_ASSUMPTIONS,
     },
     "C10": {
-        "rules": ["R-GRAM3", "R-LEX", "R-GRAMREC", "R-LISTENERS", "R-HANDLERS", "R-ORDERING", "R-DUPATTR", "R-ESCAPE", "R-ALIAS", "R-KEYS", "R-ELEMTABLE", "R-CODEC"],
+        "rules": ["R-GRAM3", "R-LEX", "R-GRAMREC", "R-LISTENERS", "R-HANDLERS", "R-ORDERING", "R-DUPATTR", "R-ESCAPE", "R-ALIAS", "R-KEYS", "R-ELEMTABLE", "R-CODEC", "R-GRAPHBUILD"],
         "thorough_rules": ["R-GENCODE"],
         "technique": "language equivalence EBNF = G4 = generated ATN by automata + typestate/CFG rules on the parser wiring",
         "explanation": "The recogniser the parser runs is the published grammar (decision procedure over all strings: three-way language equivalence "
@@ -102,7 +102,7 @@ PROPERTIES: dict[str, dict] = {
         "assumptions": COMMON_ASSUMPTIONS + ["numbers in TUCAN strings stay below the interpreter's integer-conversion limit"],
     },
     "C11": {
-        "rules": ["R-FLOW-PARSE", "R-BLISS", "R-FLOW-CANON", "R-FLOW-SERIAL", "R-BIJ", "R-KEYS"],
+        "rules": ["R-FLOW-PARSE", "R-BLISS", "R-FLOW-CANON", "R-FLOW-SERIAL", "R-BIJ", "R-KEYS", "R-REBUILD"],
         "thorough_rules": ["R-LIBSRC"],
         "technique": "taint analysis of the parser listener composed with the C01 flow proof",
         "explanation": "Spelling (tuple order, orientation, repetition, block order) reaches the parsed graph only as insertion order; the pipeline is "
@@ -111,7 +111,7 @@ PROPERTIES: dict[str, dict] = {
         "assumptions": COMMON_ASSUMPTIONS,
     },
     "C12": {
-        "rules": ["R-EFFECT", "R-COPY", "R-BIJ", "R-GLOBAL"],
+        "rules": ["R-EFFECT", "R-COPY", "R-BIJ", "R-GLOBAL", "R-REBUILD"],
         "thorough_rules": ["R-LIBSRC"],
         "technique": "effect analysis (mutation of arguments / shared objects) + bijection proof of relabel maps",
         "explanation": "canonicalize_molecule mutates nothing reachable from its argument; serialize_molecule writes only the scratch key `explored`, "
@@ -146,7 +146,7 @@ PROPERTIES: dict[str, dict] = {
         "assumptions": COMMON_ASSUMPTIONS,
     },
     "C16": {
-        "rules": ["R-CARRY", "R-LABELORDER", "R-SEED", "R-RETRY", "R-COPY", "R-BIJ", "R-EFFECT"],
+        "rules": ["R-CARRY", "R-LABELORDER", "R-SEED", "R-RETRY", "R-COPY", "R-BIJ", "R-EFFECT", "R-REBUILD"],
         "thorough_rules": ["R-LIBSRC"],
         "technique": "CFG dominance / must-pass-through rules + def-use tracing of the rebuilt graph's sources",
         "explanation": "The rebuilt graph takes nodes from nodes(data=True) in sorted label order and edges from edges(data=True); random.seed(<seed "
